@@ -481,6 +481,11 @@ impl Boudot2000RangeProof {
         let div_a = divm(&E_a, E_a_1, n);
         let div_b = divm(&E_b, E_b_1, n);
 
+        // the proofs of square must speak about E_a_1 and E_b_1 (section 3.1.1 in [Boudot2000])
+        if proof_of_square_a.E != *E_a_1 || proof_of_square_b.E != *E_b_1 {
+            return false;
+        }
+
         if E_a_2 == &div_a && E_b_2 == &div_b {
             let b_s = Self::verify_of_square::<H>(proof_of_square_a, g, h, n)
                 && Self::verify_of_square::<H>(proof_of_square_b, g, h, n);
